@@ -412,7 +412,7 @@ func runC01(c *Ctx) {
 	}
 	// plain programs (no map call, no `disabled`): the fragment on which the two-phase
 	// resolver model is PROVED to refine den; run under Tier A for the run-time tie
-	nPlain, nStaticOnly := 36, 300
+	nPlain, nStaticOnly := 36, 400
 	if c.Thorough {
 		nPlain, nStaticOnly = 400, 4000
 	}
@@ -426,6 +426,8 @@ func runC01(c *Ctx) {
 		n := nSched
 		if cases[ci].corpus {
 			n = 3
+		} else if strings.HasPrefix(cases[ci].name, "plain") && !c.Thorough {
+			n = 1 // the plain stream is there for the model tie, not for schedule coverage
 		}
 		for si := 0; si < n; si++ {
 			s := scheds[si]
